@@ -284,6 +284,16 @@ def pm_mods():
     return [rsparse.parse_file(repo_path(PUBMEM)), rsparse.parse_file(repo_path(TYPES)), rsparse.parse_file(repo_path(CONSTS))]
 
 
+def _is_err(v):
+    from symex import ResultV
+    return isinstance(v, ResultV) and v.kind == "Err"
+
+
+def _unwrap_ok(v):
+    from symex import ResultV
+    return v.value if isinstance(v, ResultV) and v.kind == "Ok" else v
+
+
 def pm_fn(mods):
     fn = mods[0].methods.get(("PublicInput", "get_public_memory_product_ratio"))
     if fn is None:
@@ -353,7 +363,7 @@ def ob_ratio(max_cells, max_headers):
         for (m, h) in ((2, 1), (3, 2)):
             cells, headers, pa, pv, z, al, size = random_ratio_point(r, m, h)
             pi = mk_public_input([(F(a), F(v)) for a, v in cells], [tuple(F(x) for x in hd) for hd in headers], F(pa), F(pv))
-            mine = Interp(modules=mods).run(fn, [F(z), F(al), F(size)], self_val=pi)
+            mine = _unwrap_ok(Interp(modules=mods).run(fn, [F(z), F(al), F(size)], self_val=pi))
             req = ratio_request(cells, headers, pa, pv, z, al, size)
             ans = replay([req])[0]
             if not isinstance(mine, F) or ok_int(ans) != mine.v:
@@ -370,7 +380,13 @@ def ob_ratio(max_cells, max_headers):
                 from symex import explore
                 def one_path(decider):
                     it = Interp(alg=alg, modules=mods, decide=decider)
-                    o = alg.lift(it.run(fn, [z, al, S], self_val=mk_public_input(cells, headers, pa, pv)))
+                    res = it.run(fn, [z, al, S], self_val=mk_public_input(cells, headers, pa, pv))
+                    if _is_err(res):
+                        # error paths (length > column size, zero divisor) are C18's subject, not the identity's
+                        for c, f, line in it.asserts:
+                            asserts_seen.add("%s:%d" % (f.split("/")[-1], line))
+                        return None
+                    o = alg.lift(_unwrap_ok(res))
                     for c, f, line in it.asserts:
                         asserts_seen.add("%s:%d" % (f.split("/")[-1], line))
                     return o
@@ -378,14 +394,20 @@ def ob_ratio(max_cells, max_headers):
                     if c.op == "not":
                         return z3.Not(cond_z3(c.a))
                     if c.op not in ("==", "!="):
-                        raise rsparse.Unsupported(repo_path(PUBMEM), 0, "ordering comparison %s on symbolic field elements in the product ratio" % c.op)
+                        # an ordering test on field elements (the length guard): a free boolean per site;
+                        # the branch that returns Err is dropped below
+                        return z3.Bool("ord_%d" % (abs(hash(repr(c))) % (10 ** 9)))
                     a, b = alg.lift(c.a), alg.lift(c.b)
                     return (a == b) if c.op == "==" else (a != b)
                 paths = explore(one_path, max_paths=64)
                 path_goals = []
                 for trace, o in paths:
+                    if o is None:
+                        continue
                     pc = [cond_z3(c) if bb else z3.Not(cond_z3(c)) for c, bb, _ in trace]
                     path_goals.append((pc, o))
+                if not path_goals:
+                    return finish(ob, "inconclusive", st, detail="no value-returning path for %d cells, %d headers" % (m, h))
                 out = path_goals[0][1]
                 den = z3.RealVal(1)
                 for a, v in cells:
